@@ -26,3 +26,16 @@ Print Assumptions C02_never_touches_destroyed_object.
 Theorem C02_notify_invalidates : S_trackable_notify_invalidates.
 Proof. exact trackable_notify_invalidates. Qed.
 Print Assumptions C02_notify_invalidates.
+
+(* ---- slots that hold other slots by value or refer to slot variables through std::ref (NestModel.v) ---- *)
+Require NestSpec NestProofs.
+
+(* after a trackable has died no functor refers to it at any depth of by-value nesting, and every slot variable whose functor did is empty *)
+Theorem C02_nested_trackable_death : NestSpec.S_nest_tdel.
+Proof. exact NestProofs.nest_tdel. Qed.
+Print Assumptions C02_nested_trackable_death.
+
+(* no operation of any history calls back into a deleted slot_rep, follows a parent_ to a deleted slot_rep or unbinds from a destroyed trackable *)
+Theorem C02_nested_never_touches_destroyed : NestSpec.S_nest_safe.
+Proof. exact NestProofs.nest_safe. Qed.
+Print Assumptions C02_nested_never_touches_destroyed.
